@@ -82,12 +82,18 @@ struct FnCfg {
     partial: bool,           // R6 mode
     into_as: Option<String>, // R12
     slice_before: Option<String>, // R11
+    slice_from: Option<String>,   // R11: statements before the anchor are dropped as well
+    frag_name: Option<String>,    // R11: the kept statements become a function of their declared free variables
+    frag_params: Option<String>,
+    frag_ret: Option<String>,
     ret_name: String,
     keep_name: bool,
     no_eager_iter: bool,
 }
 
 struct R<'a> {
+    /// span of the function body block (slicing applies to its statements only)
+    body_block: Option<(usize, usize)>,
     /// R15: spans of the blocks that are bodies of (generated or real) `for` loops
     loop_bodies: BTreeSet<(usize, usize)>,
     /// id reserved for the first loop of the pipeline being generated (ties result temporaries to their loop)
@@ -644,8 +650,27 @@ impl<'a> R<'a> {
                 Some("anyhow_error()".to_string())
             }
             "format" => {
+                // text payloads: the value is never inspected, but the arguments are still evaluated (and named, so that a
+                // woven assertion can speak about the numbers that are printed)
                 self.rule("drop:text-payload");
-                Some("opaque_string()".to_string())
+                let parser = punctuated::Punctuated::<Expr, Token![,]>::parse_terminated;
+                match mac.parse_body_with(parser) {
+                    Ok(args) if args.len() >= 2 => {
+                        let k = self.fresh();
+                        let fmt = norm(self.text(args[0].span()));
+                        let mut parts = vec![];
+                        for a in args.iter().skip(1) {
+                            parts.push(self.render_expr(a));
+                        }
+                        Some(format!(
+                            "{{ let __f{k} = ({},); /*@M:fmt {}@*/ opaque_string() }}",
+                            parts.join(", "),
+                            fmt,
+                            k = k
+                        ))
+                    }
+                    _ => Some("opaque_string()".to_string()),
+                }
             }
             "panic" | "unreachable" | "unimplemented" => {
                 if self.fc.partial {
@@ -754,6 +779,7 @@ impl<'r, 'a> V<'r, 'a> {
         let is_loop_body = self.r.loop_bodies.contains(&rng(b.span()));
         let mut closers = 0usize;
         let mut truncated = false;
+        let mut skipping = self.r.fc.slice_from.is_some() && self.r.body_block == Some(rng(b.span()));
         for (i, st) in b.stmts.iter().enumerate() {
             let (a, e) = rng(st.span());
             if is_loop_body && i + 1 < b.stmts.len() {
@@ -794,8 +820,17 @@ impl<'r, 'a> V<'r, 'a> {
                 continue;
             }
             let stext = norm(self.r.text(st.span()));
+            if skipping {
+                if stext.starts_with(self.r.fc.slice_from.as_ref().unwrap().as_str()) {
+                    skipping = false;
+                    self.r.rule("R11:fragment-slice");
+                } else {
+                    self.edits.push(Edit { start: a, end: e, text: String::new() });
+                    continue;
+                }
+            }
             if let Some(anchor) = self.r.fc.slice_before.clone() {
-                if stext.starts_with(&anchor) {
+                if self.r.body_block == Some(rng(b.span())) && stext.starts_with(&anchor) {
                     self.r.rule("R11:prefix-slice");
                     truncated = true;
                     self.edits.push(Edit {
@@ -1303,7 +1338,7 @@ fn renumber(text: &str, sigs: &HashMap<usize, String>, baseline: &[String]) -> (
     }
     out = out.replace("_~", "_");
     // other temporaries: numbered per family by order of first appearance
-    for fam in ["__k", "__v", "__t", "__x"] {
+    for fam in ["__k", "__v", "__t", "__x", "__f"] {
         let mut seen: Vec<String> = vec![];
         let bytes = out.as_bytes();
         let mut i = 0;
@@ -1366,14 +1401,63 @@ fn path_ident(e: &Expr) -> Option<String> {
     None
 }
 
+thread_local! {
+    /// crate-local functions that return the SolvingResult of a solve call unchanged (found by a fixpoint pre-pass)
+    static SOLVE_LIKE: std::cell::RefCell<BTreeSet<String>> = std::cell::RefCell::new(BTreeSet::new());
+}
+
 fn is_solve_call(e: &Expr) -> Option<&ExprMethodCall> {
     if let Expr::MethodCall(mc) = strip_paren(e) {
         let n = mc.method.to_string();
         if (n == "solve" && mc.args.is_empty()) || (n == "solve_under_assumptions" && mc.args.len() == 1) {
             return Some(mc);
         }
+        if SOLVE_LIKE.with(|s| s.borrow().contains(&n)) {
+            return Some(mc);
+        }
     }
     None
+}
+
+/// pre-pass: a function whose declared return type mentions SolvingResult and whose tail expression is a solve(-like) call
+struct WrapperFinder {
+    found: Vec<String>,
+}
+impl<'ast> Visit<'ast> for WrapperFinder {
+    fn visit_item_mod(&mut self, m: &'ast ItemMod) {
+        for a in &m.attrs {
+            if a.path().is_ident("cfg") {
+                return;
+            }
+        }
+        visit::visit_item_mod(self, m);
+    }
+    fn visit_impl_item_fn(&mut self, f: &'ast ImplItemFn) {
+        self.check(&f.sig, &f.block);
+    }
+    fn visit_item_fn(&mut self, f: &'ast ItemFn) {
+        self.check(&f.sig, &f.block);
+    }
+}
+impl WrapperFinder {
+    fn check(&mut self, sig: &Signature, b: &Block) {
+        let ret = match &sig.output {
+            ReturnType::Type(_, t) => quote::quote!(#t).to_string(),
+            _ => return,
+        };
+        if !ret.contains("SolvingResult") {
+            return;
+        }
+        let n = sig.ident.to_string();
+        if n == "solve" || n == "solve_under_assumptions" {
+            return;
+        }
+        if let Some(Stmt::Expr(e, None)) = b.stmts.last() {
+            if is_solve_call(e).is_some() {
+                self.found.push(n);
+            }
+        }
+    }
 }
 
 fn arm_diverges(e: &Expr) -> bool {
@@ -1558,6 +1642,26 @@ fn sites_main(args: &[String]) {
         }
     }
     filesv.sort();
+    loop {
+        let mut wf = WrapperFinder { found: vec![] };
+        for p in &filesv {
+            let text = std::fs::read_to_string(p).unwrap();
+            if let Ok(parsed) = syn::parse_file(&text) {
+                wf.visit_file(&parsed);
+            }
+        }
+        let mut grew = false;
+        SOLVE_LIKE.with(|s| {
+            for n in wf.found {
+                if s.borrow_mut().insert(n) {
+                    grew = true;
+                }
+            }
+        });
+        if !grew {
+            break;
+        }
+    }
     for p in filesv {
         let text = std::fs::read_to_string(&p).unwrap();
         let parsed = match syn::parse_file(&text) {
@@ -1623,6 +1727,10 @@ fn main() {
             partial: it["partial"].as_bool().unwrap_or(false),
             into_as: it["into_as"].as_str().map(|s| s.to_string()),
             slice_before: it["slice_before"].as_str().map(|s| s.to_string()),
+            slice_from: it["slice_from"].as_str().map(|s| s.to_string()),
+            frag_name: it["frag_name"].as_str().map(|s| s.to_string()),
+            frag_params: it["frag_params"].as_str().map(|s| s.to_string()),
+            frag_ret: it["frag_ret"].as_str().map(|s| s.to_string()),
             ret_name: it["ret_name"].as_str().unwrap_or("res").to_string(),
             keep_name: false,
             no_eager_iter: it["no_eager_iter"].as_bool().unwrap_or(false),
@@ -1632,6 +1740,7 @@ fn main() {
             .map(|a| a.iter().map(|v| v.as_str().unwrap().to_string()).collect())
             .unwrap_or_default();
         let mut r = R {
+            body_block: None,
             loop_bodies: BTreeSet::new(),
             pending_loop: None,
             loop_sigs: HashMap::new(),
@@ -1757,6 +1866,7 @@ fn main() {
                             if matches!(&sig.output, ReturnType::Type(..)) && fc.slice_before.is_none() {
                                 r.bind_tail = Some(rng(b.span()));
                             }
+                            r.body_block = Some(rng(b.span()));
                             let inner = r.render_block_inner(b);
                             if r.tail_bound {
                                 format!("{{{} }}", inner)
@@ -1766,7 +1876,25 @@ fn main() {
                         }
                     }
                 };
-                let full = format!("{}{} /*@SIG@*/ {}", vis, sig_text.trim_end(), body_text);
+                let (full, name) = if let Some(fname) = &fc.frag_name {
+                    // R11: the kept statements as a function of their declared free variables
+                    let params = fc.frag_params.clone().unwrap_or_default();
+                    let (ret_sig, ret_tail) = match &fc.frag_ret {
+                        Some(rt) => {
+                            let (v, t) = rt.split_once(':').unwrap_or((rt.as_str(), "()"));
+                            (format!(" -> ({}: {})", fc.ret_name, t.trim()), format!(" {} ", v.trim()))
+                        }
+                        None => (String::new(), String::new()),
+                    };
+                    let body_inner = body_text.trim();
+                    let body_inner = &body_inner[1..body_inner.len() - 1];
+                    (
+                        format!("{}fn {}({}){} /*@SIG@*/ {{ {} {} }}", vis, fname, params, ret_sig, body_inner, ret_tail),
+                        fname.clone(),
+                    )
+                } else {
+                    (format!("{}{} /*@SIG@*/ {}", vis, sig_text.trim_end(), body_text), name)
+                };
                 (*span, full, name, json!({"has_body": block.is_some()}))
             }
             FoundItem::Struct(s) => {
